@@ -1,5 +1,5 @@
 """Engine V runner: generate -> verus -> classify diagnostics against the tag ledger."""
-import os, re, sys, json, time, subprocess, hashlib, glob
+import threading, os, re, sys, json, time, subprocess, hashlib, glob
 sys.path.insert(0, os.path.dirname(os.path.abspath(__file__)))
 import gen
 
@@ -110,7 +110,10 @@ def run_unit(unit, extra=(), repo=REPO, keep=True):
         return r
     text = g.text()
     path = os.path.join(WORK, unit + ".rs")
-    open(path, "w").write(text)
+    if not (os.path.exists(path) and open(path).read() == text):   # (re-runs of a unit within one check share the file)
+        tmp = path + ".%d.tmp" % threading.get_ident()
+        open(tmp, "w").write(text)
+        os.replace(tmp, path)
     lines = text.split("\n")
     r.gen_path, r.gen_sha = path, hashlib.sha256(text.encode()).hexdigest()
     r.items, r.sources = g.items, g.sources
